@@ -13,6 +13,12 @@ inline const char* setter_name(int s) {
   static const char* n[] = {"href", "protocol", "username", "password", "host", "hostname", "port", "pathname", "search", "hash"};
   return s >= 0 && s < 10 ? n[s] : "?";
 }
+enum ExtOp : uint8_t { OP_CLEAR_PORT = 10, OP_CLEAR_HASH, OP_CLEAR_SEARCH, OP_COPY, OP_REPARSE };
+inline std::string op_name(int s) {
+  static const char* n[] = {"clear_port", "clear_hash", "clear_search", "copy", "reparse"};
+  if (s < 10) return std::string("set_") + setter_name(s);
+  return s < 15 ? n[s - 10] : "?";
+}
 }  // namespace vf
 
 namespace vf::gen {
